@@ -77,5 +77,8 @@ claim("C05",
       "Proof of the listed obligations (partial): table.execBinaryOperation evaluates one step - an output reached twice from the one side in the same step is an error whether or not the pair survives the comparison filter, never for the many side; a right sample pairs only with a left sample of the same step; the operation receives (left, right); bool yields 1/0 and a filtered comparison keeps the operation's value; output ids index the output series; operands are planned in order with the node's matching.",
       COMMON_NOTE + "The join index (which series match), result label sets and the scalar forms are not yet under contract.",
       "DESIGN.md 4 C05")
-NA["C09"] = "only the selector-cache key and plan-construction obligations touch this property so far; no optimizer function is under contract yet, so the property is not claimed"
+claim("C09",
+      "Proof of the listed obligations (partial): merge-selects - a selector is only replaced by a recorded broader selector whose matchers are all matchers of the selector (compared by name, type and value, repeated label names included), every matcher of the selector is applied by the replacement or kept as a filter, and nothing else is applied; the in-engine filter passes a series iff every filter matcher holds with an absent label read as the empty string, keeps the select's order and signs the kept series densely; matcher propagation is applied only to arithmetic one-to-one operators matching on all labels, keeps every own matcher of each operand and adds only non-name matchers of the other operand; traversal hands the optimizers pointers into the plan (replacements are not lost); the selector cache key covers matchers, window and hints.",
+      COMMON_NOTE + "The set-theoretic step from these premises to 'same series selected' (DESIGN.md 4 C09, lemmas L1 and L3) is a short pen-and-paper argument, not machine-checked; labels.Matcher.Matches and Labels.Get are uninterpreted; SortMatchers and the distributed optimizer are not under contract; results are not compared end to end.",
+      "DESIGN.md 4 C09")
 NA["C14"] = "liveness/schedule property (bounded-time return, deadlock freedom, goroutine termination): no pre/postcondition or invariant of a sequential contract expresses it and gocv has no concurrency model"
